@@ -186,10 +186,14 @@ pub fn run(tier: &str, only: Option<&Value>) -> i32 {
                     rep.count("rejected", 1);
                     if let Some(r) = need_reject {
                         rep.count(&format!("rejected_as_required_{r}"), 1);
+                    } else if vals.iter().any(|v| *v > i64::MAX as i128 || *v < i64::MIN as i128) {
+                        // values beyond the language's 64-bit integers are unspellable (a written one does not
+                        // parse, an implicit one is not computed): refusing them is not a fault
+                        rep.count("rejected_value_beyond_the_language_integers", 1);
                     } else {
-                        // the statement does not require acceptance; values beyond isize are
-                        // unspellable. Anything else rejected is counted for the reader.
-                        rep.count("rejected_not_required", 1);
+                        // everything the base type can hold has to be emitted with that value: a rejection is the
+                        // enum not being "represented as the declared integer base type" at all
+                        fail("valid_enum_rejected", format!("values {vals:?} all fit the base type {}: {}", base_name(&c.e), v.err_text()), &mut rep);
                     }
                 }
                 pipe::Verdict::Ok(b) => {
